@@ -146,6 +146,10 @@ def check(ctx, case):
 		sigs = case['sigs']
 		arrs = [np.array(s, dtype=dt) for s in sigs]
 		cont = case['cont']
+		if case.get('odd_empty') and cont in ('list', 'annotated-list'):
+			# a list-backed collection may hold elements of other integer types next to its own: an empty signature made with a plain
+			# `np.arange(0)` / `np.array([], dtype=int)` (values are what count; nothing may be rounded through a common type)
+			arrs = [(np.arange(0) if i % 2 == 0 else np.array([], dtype=int)) if len(a) == 0 else a for i, a in enumerate(arrs)]
 		if cont == 'window':
 			# a zero-copy window of a larger SignatureArray: bounds do not start at 0 and do not end at len(values)
 			pad_l, pad_r = np.array([3, 5, 8], dtype=dt), np.array([1, 2], dtype=dt)
@@ -285,6 +289,11 @@ def run(ctx):
 		sigs = rand_sigs(rng, n, k)
 		if rng.random() < 0.08:
 			sigs = [[] for _ in range(n)]
+		odd_empty = False
+		if k >= 27 and n >= 2 and rng.random() < 0.5:
+			# wide k-mer indices (above 2^53) next to an empty signature of another integer type
+			sigs[rng.randrange(n)] = []
+			odd_empty = True
 		meta = None
 		if rng.random() < 0.6:
 			meta = {'id': rng.choice([None, 'set/' + rng.choice(UNI)]), 'name': rng.choice([None] + UNI), 'version': rng.choice([None, '1.0', '2.0rc1']),
@@ -308,10 +317,11 @@ def run(ctx):
 			neg = [x - n for x in [a] + mid[::-1] + [a + ln - 1]]
 			idx.append({'t': 'ints', 'l': neg, 'form': 'list'})
 		comp = rng.choice([None, None, 'gzip', 'lzf'])
-		cont = rng.choice(['array', 'list', 'annotated-array', 'annotated-list', 'window'])
+		cont = rng.choice(['array', 'list', 'annotated-array', 'annotated-list', 'window']) if not odd_empty else rng.choice(['list', 'annotated-list'])
 		idk = rng.choice(['default', 'strlist', 'intlist', 'U', 'S', 'O', 'i4', 'u8', 'u8top', 'i8neg'])
 		if cont == 'window' and rng.random() < 0.6:
 			idk, meta = 'default', None            # the bare window (the whole-array write path)
 		sub({'kind': 'rt', 'k': k, 'prefix': rng.choice(['A', 'AT', 'ATGAC', 'GGC']), 'sigs': sigs, 'cont': cont,
 		     'ids': idk, 'ids_seed': rng.randrange(10 ** 6), 'meta': meta, 'prior': rng.choice([None, None, None, 'default-meta-touched', 'open-handle-then-replace']),
-		     'compression': comp, 'compression_opts': rng.choice([None, 1, 9]) if comp == 'gzip' else None, 'indexes': idx}, 'roundtrip')
+		     'compression': comp, 'compression_opts': rng.choice([None, 1, 9]) if comp == 'gzip' else None, 'indexes': idx, 'odd_empty': odd_empty},
+		    'roundtrip' if not odd_empty else 'roundtrip-odd-empty')
